@@ -387,8 +387,24 @@ def _r6_grid(ctx: Ctx) -> None:
                 loops.append((st[1], st[2]))
                 find_loops(st[3], depth + 1)
     find_loops(block)
-    ctx.require(len(loops) == 2, "rectangle_grid: expected a two-level loop nest")
     var_of = {}
+    if len(loops) == 1:
+        # flattened form: for cell in range(nrows * ncols): row, col = divmod(cell, ncols)   (row-major order)
+        var, it = loops[0]
+        total = ("c", ("g", "range"), ((to_poly(nrows) * to_poly(ncols)).to_s(),), ())
+        dm = atoms_of((ce, sh), lambda x: x[0] == "proj" and x[1][0] == "c" and x[1][1] == ("g", "divmod") and x[3] == 2 and x[1][2][0] == var)
+        divisors = {x[1][2][1] for x in dm}
+        if it == total and dm and len(divisors) == 1:
+            d = divisors.pop()
+            ctx.site(fg.where, "flattened grid loop: cell index decoded with divmod(cell, number of columns)", divisor=show(d))
+            if d != ncols:
+                ctx.report(fg.where, f"grid-index-decode divmod(cell, {show(d)})", "rectangle_grid decodes the flat cell index with the wrong divisor: for a grid that is not "
+                           "square the cells do not tile the rectangle (some lie outside, part of it is uncovered)", lineno=fg.node.lineno)
+                return
+            call = ("c", ("g", "divmod"), (var, ncols), ())
+            var_of = {"row": ("proj", call, 0, 2), "col": ("proj", call, 1, 2)}
+            loops = [(var_of["row"], ("c", ("g", "range"), (nrows,), ())), (var_of["col"], ("c", ("g", "range"), (ncols,), ()))]
+    ctx.require(len(loops) == 2, "rectangle_grid: expected a two-level loop nest (or a flat loop decoded with divmod)")
     for var, it in loops:
         if it == ("c", ("g", "range"), (nrows,), ()):
             var_of["row"] = var
